@@ -213,6 +213,9 @@ pub struct Knobs {
     /// the generator's try_fill_bytes reports an error (fill_bytes still works)
     #[serde(default)]
     pub rng_try_fill_fails: bool,
+    /// which error an injected external-key failure carries (seams::hsm_err_name)
+    #[serde(default)]
+    pub hsm_err_flavour: u8,
 }
 
 #[derive(Clone, Debug, Serialize, Deserialize)]
@@ -713,6 +716,7 @@ impl<'a> Exec<'a> {
         use crate::seams::*;
         let ops = self.w.ops.clone();
         hsm_set_handle_mode(self.w.knobs.hsm_handle);
+        hsm_set_err_flavour(self.w.knobs.hsm_err_flavour);
         hsm_rotate_to(None);
         for (i, op) in ops.iter().enumerate() {
             Stats::bump(&mut self.stats.ops, op.name());
@@ -747,14 +751,16 @@ impl<'a> Exec<'a> {
                 // the model knew nothing of the fault: drop its verdicts for this op
                 let keep: Vec<Violation> = self.viol.drain(nviol..).filter(|v| v.clause == "panic").collect();
                 self.viol.extend(keep);
-                let want = if fired_k { "KsfError".to_string() } else { format!("Custom(HsmErr({}))", hf.unwrap_or(0)) };
+                let flav = self.w.knobs.hsm_err_flavour;
+                let want = if fired_k { "KsfError".to_string() } else { hsm_err_name(flav, hf.unwrap_or(0)) };
                 let res = self.events.last().filter(|e| e.op == i).map(|e| e.res.clone());
                 match res {
                     Some(Ok(_)) => self.violate("seam_error_swallowed", i, format!("{}: an injected {} failure did not surface: the operation returned Ok", op.name(), if fired_k { "KSF" } else { "external-key" })),
                     Some(Err(f)) => {
                         let ok = match &f.kind {
                             ErrKind::Library(n) => n == &want,
-                            ErrKind::Serde(m) => fired_h && m.contains("HsmErr"),
+                            // the key's own serde implementation names the error in its message
+                            ErrKind::Serde(m) => fired_h && m.contains(&want),
                             _ => false,
                         };
                         if !ok && !f.is_panic() {
@@ -766,6 +772,7 @@ impl<'a> Exec<'a> {
             }
         }
         hsm_set_handle_mode(false);
+        hsm_set_err_flavour(0);
         hsm_rotate_to(None);
         self.finish()
     }
